@@ -34,6 +34,7 @@ from pyvc.pack import Case, Ground
 loader.import_repo()
 import halmos.assertions as ha  # noqa: E402
 import halmos.cheatcodes as hc  # noqa: E402
+import halmos.sevm as hs  # noqa: E402
 from halmos.exceptions import FailCheatcode, InfeasiblePath  # noqa: E402
 
 PROP = "C13"
@@ -472,6 +473,50 @@ def handle_arm_cases():
 
             out.append(Case(f"{PROP}/cheatcodes.hevm_cheat_code.handle#assert", f"check(cond)={rc},check(not cond)={rn}", harness, sources=("halmos.cheatcodes:hevm_cheat_code.handle",)))
 
+    # the same arm composed with the real handler of every word-comparison assertion: the failing state must
+    # carry exactly the negation of the *specified* relation (signed / unsigned), whatever object the handler returns
+    BIN = [f"assert{op}({t},{t})" for op in ("Eq", "NotEq", "Lt", "Gt", "Le", "Ge") for t in ("uint256", "int256")] + ["assertEq(address,address)", "assertEq(bool,bool)", "assertEq(bytes32,bytes32)", "assertNotEq(bytes32,bytes32)"]
+    known = {sig for _, sig in table_entries()}
+    for sig in BIN:
+        if sig not in known:
+            continue
+        for rc, rn in (("sat", "sat"), ("unknown", "unknown"), ("sat", "unknown")):
+
+            def harness(interp, sig=sig, rc=rc, rn=rn):
+                from halmos.bytevec import ByteVec
+
+                ctx = interp.ctx
+                fn, arm = _handle_fragment("assert_cheatcode_handler")
+                op, params = parse_sig(sig)
+                A, B = z3.BitVec("A", 256), z3.BitVec("B", 256)
+                cond_expected = rel_word(op, params[0], A, B)
+                unexpected = []
+
+                def probe(c):
+                    for name, f in (("cond", cond_expected), ("not", z3.Not(cond_expected))):
+                        s_ = z3.Solver()
+                        s_.add(c != f)
+                        if s_.check() == z3.unsat:
+                            return name
+                    unexpected.append(c)
+                    return "not"
+
+                ex = StubEx({"cond": RES[rc], "not": RES[rn]}, probe)
+                sevm, stack = StubSevm(), StubStack()
+                arg = GhostCalldata(words={4: A, 36: B})
+                interp.contracts.update(extractor_contracts([]))
+                env = Env({"sevm": sevm, "ex": ex, "arg": arg, "stack": stack, "funsig": keccak4(sig), "ret": ByteVec()}, None, fn.__globals__)
+                kind, payload, _ = interp.exec_fragment(arm.body, env, qual="halmos.cheatcodes:hevm_cheat_code.handle#assert", is_gen=False)
+                ctx.oblige("arm-returns-normally", z3.BoolVal(kind == "return"), info={"kind": kind, "payload": str(payload)[:100]})
+                ctx.oblige("the solver is asked only about the specified relation and its negation", z3.BoolVal(not unexpected), info={"asked": str(unexpected)[:200]})
+                ok = len(sevm.branches) == 1 and not ex.halted and stack.pushed == [sevm.branches[0][3]]
+                ctx.oblige("failure-not-excluded: exactly one failing state is created and pushed", z3.BoolVal(ok))
+                if sevm.branches:
+                    ctx.oblige("failing-state-carries-exactly-the-negation-of-the-specified-relation", sevm.branches[0][1] == z3.Not(cond_expected))
+                ctx.oblige("continuing-path-gets-no-extra-constraint", z3.BoolVal(ex.path.appended == []))
+
+            out.append(Case(f"{PROP}/cheatcodes.hevm_cheat_code.handle#assert", f"{sig}; check(cond)={rc},check(not cond)={rn}", harness, replay=replay_assert_boundary(sig), sources=("halmos.cheatcodes:hevm_cheat_code.handle", "halmos.assertions:vm_assert_binary", "halmos.assertions:mk_cond")))
+
     for kind_w in ("term", "zero", "one"):
 
         def harness(interp, kind_w=kind_w):
@@ -500,8 +545,123 @@ def handle_arm_cases():
     return out
 
 
+def replay_assert_boundary(sig):
+    """real hevm_cheat_code.handle on a real Exec: the union of the failing states' conditions is the negation of the relation"""
+
+    def replay(r):
+        from contracts.common import mk_ex, mk_sevm
+        from halmos.bytevec import ByteVec
+
+        op, params = parse_sig(sig)
+        sevm = mk_sevm()
+        ex = mk_ex(sevm, b"\x00")
+        A, B = z3.BitVec("A", 256), z3.BitVec("B", 256)
+        arg = ByteVec(keccak4(sig).to_bytes(4, "big"))
+        arg.append(A)
+        arg.append(B)
+        stack = hs.Worklist()
+        n0 = len(ex.path.conditions)
+        try:
+            hc.hevm_cheat_code.handle(sevm, ex, arg, stack)
+        except Exception as e:  # noqa
+            return {"reproduced": True, "detail": f"{sig}: handle raised {type(e).__name__}: {e}"}
+        fails = []
+        while True:
+            nx = stack.pop()
+            if nx is None:
+                break
+            fails.append(z3.And(*nx.path.pending) if nx.path.pending else z3.BoolVal(True))
+        rel = rel_word(op, params[0], A, B)
+        s_ = z3.Solver()
+        s_.add(z3.Or(*fails) != z3.Not(rel) if fails else z3.Not(rel))
+        if s_.check() == z3.sat:
+            m = s_.model()
+            return {"reproduced": True, "detail": f"{sig} with symbolic operands: the failing state(s) carry {[str(f) for f in fails]}, which is not the negation of the relation, e.g. for A={m.eval(A, True)}, B={m.eval(B, True)}", "inputs": f"A={m.eval(A, True)}, B={m.eval(B, True)}"}
+        return {"reproduced": False, "detail": f"{sig}: the failing state carries exactly the negation of the relation"}
+
+    return replay
+
+
+def delayed_error_cases():
+    """SEVM.run loop head: a state that was pushed with a stored failure (the failing branch of vm.assert*) is
+    activated first, so the negated assertion is part of its path constraints when it is reported"""
+    from contracts.common import mk_ex, mk_sevm
+
+    out = []
+
+    def harness(interp):
+        ctx = interp.ctx
+        sf, fn = loader.find_unit("halmos.sevm:SEVM.run")
+        loops = [n for n in ast.walk(fn) if isinstance(n, ast.While)]
+        if len(loops) != 1:
+            raise loader.BindingError("expected one main loop in SEVM.run")
+        tr = [n for n in loops[0].body if isinstance(n, ast.Try)]
+        if len(tr) != 1:
+            raise loader.BindingError("expected one try block in the main loop of SEVM.run")
+        body = tr[0].body
+        cut = next((i for i, st in enumerate(body) if isinstance(st, (ast.Assign, ast.AnnAssign)) and "ex.insn" in ast.unparse(st)), None)
+        if cut is None:
+            raise loader.BindingError("loop head of SEVM.run not recognised (no `insn = ex.insn`)")
+        head = body[:cut]
+        sevm = mk_sevm()
+        ex0 = mk_ex(sevm, b"\x00")
+        A, B = z3.BitVecs("A B", 256)
+        not_cond = z3.Not(z3.ULT(A, B))
+        nx = sevm.create_branch(ex0, not_cond, ex0.pc)
+        err = FailCheatcode("assertLt")
+        from halmos.bytevec import ByteVec
+
+        nx.halt(data=ByteVec(), error=err)
+        ctx.oblige("precondition (C13 handle#assert): the failing state is created with the negated assertion pending", z3.BoolVal(list(nx.path.pending) == [not_cond] or (len(nx.path.pending) == 1 and z3.eq(nx.path.pending[0], not_cond))))
+        env = Env({"self": sevm, "ex": nx, "next_ex": nx, "step_id": 0, "step_interval_mask": 1023, "no_status": True, "stack": hs.Worklist(), "start_time": 0.0, "fun_name": "f", "call_seq_str": "", "max_depth": 0, "print_steps": False, "coverage_output": None, "profile_instructions": False}, None, hs.__dict__)
+        kind, payload, yields = interp.exec_fragment(head, env, qual="halmos.sevm:SEVM.run#loop-head")
+        ctx.oblige("the stored failure of a popped state is raised by the loop head (and handled by the FailCheatcode arm)", z3.BoolVal(kind == "raise" and payload is err), info={"kind": kind, "payload": str(payload)[:100]})
+        conds = [c for c in nx.path.conditions]
+        s_ = z3.Solver()
+        s_.add(z3.And(*conds) if conds else z3.BoolVal(True))
+        s_.add(z3.ULT(A, B))
+        ctx.oblige("when the failure is raised the path has been activated: nothing pending, and the path constraints imply the negated assertion", z3.BoolVal(len(nx.path.pending) == 0 and s_.check() == z3.unsat), info={"pending": str(nx.path.pending)[:100], "conditions": str(conds)[:200]})
+
+    out.append(Case(f"{PROP}/sevm.SEVM.run#loop-head", "popped state with a stored assertion failure and a pending condition", harness, replay=replay_delayed_error, sources=("halmos.sevm:SEVM.run", "halmos.sevm:Path.activate")))
+    return out
+
+
+def replay_delayed_error(r):
+    """real SEVM.run on a program that calls vm.assertLt(x, y) with symbolic operands: every reported failing path must imply x >= y"""
+    from contracts.common import mk_ex, mk_sevm
+    from halmos.bytevec import ByteVec
+
+    sig = keccak4("assertLt(uint256,uint256)")
+    # mem[0..4) = selector, mem[4..36) = calldata word 0, mem[36..68) = calldata word 1; STATICCALL vm; STOP
+    code = bytes([0x63]) + sig.to_bytes(4, "big") + bytes([0x60, 0xE0, 0x1B, 0x60, 0x00, 0x52])  # PUSH4 sel; PUSH1 224; SHL; PUSH1 0; MSTORE
+    code += bytes([0x60, 0x00, 0x35, 0x60, 0x04, 0x52, 0x60, 0x20, 0x35, 0x60, 0x24, 0x52])  # calldata words to memory
+    vm = hc.hevm_cheat_code.address.as_long() if hasattr(hc.hevm_cheat_code.address, "as_long") else int(hc.hevm_cheat_code.address)
+    code += bytes([0x60, 0x00, 0x60, 0x00, 0x60, 0x44, 0x60, 0x00, 0x73]) + vm.to_bytes(20, "big") + bytes([0x5A, 0xFA, 0x50, 0x00])  # STATICCALL(gas, vm, 0, 0x44, 0, 0); POP; STOP
+    sevm = mk_sevm()
+    x, y = z3.BitVecs("x y", 256)
+    data = ByteVec(x)
+    data.append(y)
+    ex = mk_ex(sevm, code, data=data)
+    outs = list(sevm.run(ex))
+    bad = []
+    for o in outs:
+        e = o.context.output.error
+        if isinstance(e, FailCheatcode):
+            s_ = z3.Solver()
+            s_.add(*list(o.path.conditions))
+            s_.add(z3.ULT(x, y))
+            if s_.check() == z3.sat:
+                m = s_.model()
+                bad.append(f"x={m.eval(x, True)}, y={m.eval(y, True)}")
+    if bad:
+        return {"reproduced": True, "detail": f"program vm.assertLt(x, y) with symbolic calldata: a path reported as an assertion failure admits {bad[0]} for which x < y holds (the negated assertion is not among its constraints)", "inputs": bad[0]}
+    if not any(isinstance(o.context.output.error, FailCheatcode) for o in outs):
+        return {"reproduced": None, "detail": f"no failing path was reported ({len(outs)} paths)"}
+    return {"reproduced": False, "detail": "every reported assertion-failure path implies x >= y"}
+
+
 def build_cases(tier="quick"):
-    return handler_cases() + handle_arm_cases()
+    return handler_cases() + handle_arm_cases() + delayed_error_cases()
 
 
 def grounds():
